@@ -137,5 +137,5 @@ SUBCHECKS = [
     Sub("pairing", cases(), check, 4000, 20000, ("asm",), ("asm", "asm:base", "p64", "p32")),
     # the same oracle on every other configuration that can be built on the host (word size, baseline asm, ARM binding layers):
     # a pairing that is right only with 64-bit words is wrong on the devices the library targets
-    Sub("pairing_backends", cases(), check, 480, 4000, ("asm:base", "p64", "p32", "glue-a64", "glue-v6m"), ("glue-a64", "glue-v6m")),
+    Sub("pairing_backends", cases(), check, 480, 4000, ("asm:base", "p64", "p32", "glue-a64", "glue-v6m", "p64-O0"), ("glue-a64", "glue-v6m", "p64-O0")),
 ]
